@@ -87,7 +87,11 @@ def exp_fitting(
             coeffs[0] + coeffs[1] * np.exp(Polynomial(coeffs[2:])(x)),
         )
 
-    fitted_params, _ = curve_fit(model_function, x_data, y_data, init_param)
+    # gtol: a fit that has converged to machine precision (e.g. on a noiseless,
+    # constant series) is a success, not "gtol=0 is too small"
+    fitted_params, _ = curve_fit(
+        model_function, x_data, y_data, init_param, gtol=np.finfo(float).eps
+    )
     fitted_value = fitted_params[0] + fitted_params[1] * np.exp(
         Polynomial(fitted_params[2:])(point)
     )
@@ -128,7 +132,11 @@ def exp_fitting_with_const(
         return cast(float, constant + coeffs[0] * np.exp(Polynomial(coeffs[1:])(x)))
 
     fitted_params, _ = curve_fit(
-        model_function_with_constant, x_data, y_data, init_param
+        model_function_with_constant,
+        x_data,
+        y_data,
+        init_param,
+        gtol=np.finfo(float).eps,
     )
     fitted_value = constant + fitted_params[0] * np.exp(
         Polynomial(fitted_params[1:])(point)
